@@ -176,3 +176,24 @@ def alloc_factors(env):
         memo[r.name] = best
         return best
     return {n: 64 + reach(n) for n in names}
+
+
+PART_ALIGN_MECH = 'swap-aligns-end-of-part-to-its-own-alignment'
+GREEDY_RET_MECH = 'swap-returns-greedy-member-address-rounded-up-to-struct-alignment'
+
+
+def reaches_decreasing_part_alignment(sch, w, tname, _seen=None):
+    """True when swapping tname walks a struct with two consecutive partN blocks (N >= 2) whose alignment
+    decreases: the generated part swap returns its end aligned to the part's own alignment."""
+    _seen = _seen if _seen is not None else set()
+    r = sch.resolve(tname)
+    if isinstance(r, str) or r.kind == 'enum' or r.name in _seen:
+        return False
+    _seen.add(r.name)
+    if r.kind == 'union':
+        return any(reaches_decreasing_part_alignment(sch, w, a[1], _seen) for a in r.arms)
+    L = w.layout(r.name)
+    for i in range(1, len(L.blocks) - 1):
+        if L.block_align[i + 1] < L.block_align[i]:
+            return True
+    return any(reaches_decreasing_part_alignment(sch, w, m.type, _seen) for m in r.members if m.type != 'byte')
